@@ -1,12 +1,13 @@
 /-
   C02 — Filtering an hourly collection selects exactly the requested time steps.
   Property theorems only (helper lemmas: Proofs/C02Lemmas.lean, Proofs/C02Index.lean,
-  Proofs/C02Slice.lean).  No Mathlib.
+  Proofs/C02Cyclic.lean, Proofs/C02Slice.lean, Proofs/C02Order.lean).  No Mathlib.
 
   The model (Model/Filter.lean, on Model/AP.lean and Model/Cal.lean) is tied to
   ladybug/datacollection.py and ladybug/_datacollectionbase.py by the correspondence ops of
-  Drv/C02.lean (harness/props/c02.py).  It describes the code with the four fixes/C02_*.patch
-  applied (filters of continuous collections that wrap the year end).
+  Drv/C02.lean (harness/props/c02.py).  It describes the code with the five fixes/C02_*.patch
+  applied (filters of continuous collections that wrap the year end; order of the discontinuous
+  period filter).
 
   Vocabulary: a collection is its header period and its (minute of the year, value) pairs; values
   have an arbitrary type `α`; `c.pairs` of a continuous collection is `zip (steps of its period) values`.
@@ -14,6 +15,7 @@
   value list – nothing is bounded.
 -/
 import Ladybug.Proofs.C02Slice
+import Ladybug.Proofs.C02Order
 import Ladybug.Props.C04
 
 open Cal
@@ -53,7 +55,8 @@ example : slow [60, -3, 0] [(0, 'a'), (30, 'b'), (60, 'c')] = [(0, 'a'), (60, 'c
     source and exactly the requested pairs in source order. -/
 theorem C02_disc_moys {α : Type} (req : List Int) (c : Disc α) :
     (∀ r, Disc.filterByMoys req c = .ok r →
-      r.ap = c.ap ∧ r.pairs = c.pairs.filter (fun p => decide ((p.1 : Int) ∈ req))) ∧
+      r.ap = c.ap ∧ r.pairs = c.pairs.filter (fun p => decide ((p.1 : Int) ∈ req)) ∧
+      r.validated = c.validated) ∧
     (Disc.filterByMoys req c = .error .assert ↔ ∀ p ∈ c.pairs, (p.1 : Int) ∉ req) := by
   unfold Disc.filterByMoys Keyed.mk?
   rw [slow_eq_filter]
@@ -61,7 +64,7 @@ theorem C02_disc_moys {α : Type} (req : List Int) (c : Disc α) :
   · intro r h
     split at h
     · cases h
-    · injection h with h; subst h; exact ⟨rfl, rfl⟩
+    · injection h with h; subst h; exact ⟨rfl, rfl, rfl⟩
   · constructor
     · intro h
       split at h
@@ -79,65 +82,46 @@ theorem C02_disc_moys {α : Type} (req : List Int) (c : Disc α) :
       rw [this]; rfl
 
 /-- **Discontinuous period filter**: requires equal timestep and leap flag (`AssertionError`
-    otherwise); the result carries the filter period as header, holds exactly the source pairs whose
-    minute is a step of the filter period (source order), and every result minute is a step of the
-    header period in the sense of the independent description `AP.Pred` (C04). -/
+    otherwise); the result carries the filter period as header and the `validated_a_period` flag of
+    the source, holds exactly the source pairs whose minute is a step of the filter period (as a
+    multiset: `Perm`; nothing added, nothing lost), and every result minute is a step of the header
+    period in the sense of the independent description `AP.Pred` (C04). -/
 theorem C02_disc_period {α : Type} (f : AP) (hf : f.WF) (c : Disc α) (r : Disc α)
     (h : Disc.filterByAP f c = .ok r) :
-    checkAP c.ap f = true ∧ r.ap = f ∧
-    r.pairs = c.pairs.filter (fun p => decide (p.1 ∈ f.moys)) ∧ r.pairs.Sublist c.pairs ∧
-    ∀ p ∈ r.pairs, f.Pred p.1 := by
-  unfold Disc.filterByAP at h
-  split at h
-  · cases h
-  · rename_i hchk
-    have hchk' : checkAP c.ap f = true := by simpa using hchk
-    cases h1 : Disc.filterByMoys (f.moys.map Int.ofNat) c with
-    | error e => rw [h1] at h; cases h
-    | ok r0 =>
-      rw [h1] at h
-      injection h with h
-      subst h
-      obtain ⟨_, e2⟩ := (C02_disc_moys _ c).1 r0 h1
-      have e3 : r0.pairs = c.pairs.filter (fun p => decide (p.1 ∈ f.moys)) := by
-        rw [e2]; congr 1; funext p
-        exact decide_eq_decide.mpr (mem_map_ofNat f.moys p.1)
-      refine ⟨hchk', rfl, e3, ?_, ?_⟩
-      · show r0.pairs.Sublist c.pairs
-        rw [e3]; exact List.filter_sublist
-      · intro p hp
-        have hp' : p ∈ r0.pairs := hp
-        rw [e3, List.mem_filter] at hp'
-        exact (AP.C04_mem_moys f hf p.1).mp (by simpa using hp'.2)
+    checkAP c.ap f = true ∧ r.ap = f ∧ r.validated = c.validated ∧
+    r.pairs.Perm (c.pairs.filter (fun p => decide (p.1 ∈ f.moys))) ∧
+    ∀ p ∈ r.pairs, p ∈ c.pairs ∧ f.Pred p.1 := by
+  obtain ⟨hchk, rfl⟩ := disc_filterByAP_spec f c r h
+  refine ⟨hchk, rfl, rfl, sortByPeriod_perm f _, ?_⟩
+  intro p hp
+  have hp' := (sortByPeriod_perm f _).mem_iff.mp hp
+  rw [List.mem_filter] at hp'
+  exact ⟨hp'.1, (AP.C04_mem_moys f hf p.1).mp (by simpa using hp'.2)⟩
 
-/-- Order of the discontinuous period filter – partial: the result keeps the order of the *source*.
-    When the source is in increasing order of minutes, so is the result; this is the order of the
-    filter period only if that period does not wrap the year end (see the counterexample below). -/
-theorem C02_disc_period_order_partial {α : Type} (f : AP) (c r : Disc α) (h : Disc.filterByAP f c = .ok r)
-    (hs : c.pairs.Pairwise (fun p q => p.1 < q.1)) : r.pairs.Pairwise (fun p q => p.1 < q.1) := by
-  unfold Disc.filterByAP at h
-  split at h
-  · cases h
-  · cases h1 : Disc.filterByMoys (f.moys.map Int.ofNat) c with
-    | error e => rw [h1] at h; cases h
-    | ok r0 =>
-      rw [h1] at h
-      injection h with h
-      subst h
-      obtain ⟨_, e2⟩ := (C02_disc_moys _ c).1 r0 h1
-      show r0.pairs.Pairwise _
-      rw [e2]
-      exact List.Pairwise.sublist List.filter_sublist hs
+/-- **The discontinuous period filter answers in the period's time order** (with
+    fixes/C02_disc_period_order.patch): along the result the position of the minutes in the period's
+    enumeration never decreases, and so does their chronological rank counted cyclically from the
+    start moment of the period (`chronoKey`, the order of `C04_moys_chrono`) – whatever the order of
+    the source, also for periods that wrap the year end.  (Equal minutes – a discontinuous collection
+    may hold a date-time twice – stay in source order: the sort is stable.) -/
+theorem C02_disc_period_order {α : Type} (f : AP) (hf : f.WF) (c r : Disc α)
+    (h : Disc.filterByAP f c = .ok r) :
+    r.pairs.Pairwise (fun p q => f.moys.idxOf p.1 ≤ f.moys.idxOf q.1) ∧
+    r.pairs.Pairwise (fun p q => f.chronoKey p.1 ≤ f.chronoKey q.1) := by
+  obtain ⟨_, rfl⟩ := disc_filterByAP_spec f c r h
+  have hs := sortByPeriod_sorted f (c.pairs.filter fun p => decide (p.1 ∈ f.moys))
+  refine ⟨hs, List.Pairwise.imp_of_mem ?_ hs⟩
+  intro p q hp hq hpq
+  have hp' := (sortByPeriod_perm f _).mem_iff.mp hp
+  have hq' := (sortByPeriod_perm f _).mem_iff.mp hq
+  rw [List.mem_filter] at hp' hq'
+  exact chrono_of_idx f hf p.1 q.1 (by simpa using hp'.2) (by simpa using hq'.2) hpq
 
-/-- **Counterexample (open finding C02-disc-period-order)**: the period 31 Dec → 1 Jan applied to a
-    discontinuous collection holding 1 Jan 00:00 and 31 Dec 00:00 returns 1 Jan first, although the
-    header period of the result starts on 31 Dec (the period's own order is 31 Dec, then 1 Jan). -/
-theorem C02_disc_period_order_counterexample :
-    (Disc.filterByAP ⟨12, 31, 0, 1, 1, 23, 1, false⟩
-      (⟨AP.annual false 1, [(0, 'a'), (524160, 'b')]⟩ : Disc Char)).toOption.map (·.pairs) =
-      some [(0, 'a'), (524160, 'b')] ∧
-    (⟨12, 31, 0, 1, 1, 23, 1, false⟩ : AP).moys.head? = some 524160 := by
-  decide +kernel
+-- The witness of the former finding C02-disc-period-order (evaluated): 31 Dec → 1 Jan applied to a
+-- collection holding 1 Jan 00:00 before 31 Dec 00:00 now answers 31 Dec first.
+#guard (Disc.filterByAP ⟨12, 31, 0, 1, 1, 23, 1, false⟩
+    (⟨AP.annual false 1, [(0, 'a'), (524160, 'b')], true⟩ : Disc Char)).toOption.map (·.pairs) =
+  some [(524160, 'b'), (0, 'a')]
 
 /-! ### The index arithmetic of continuous collections -/
 
@@ -149,13 +133,13 @@ theorem C02_disc_period_order_counterexample :
     source.  (The minutes of a collection are distinct – `C04_moys_nodup` – so this pins the result.) -/
 theorem C02_cont_moys {α : Type} (c : Cont α) (hc : c.WF) (req : List Nat) (hne : req ≠ [])
     (hreq : ∀ m ∈ req, m ∈ c.ap.moys) :
-    ∃ r, Cont.filterByMoys (req.map Int.ofNat) c = .ok r ∧ r.ap = c.ap ∧
+    ∃ r, Cont.filterByMoys (req.map Int.ofNat) c = .ok r ∧ r.ap = c.ap ∧ r.validated = true ∧
       r.pairs.map Prod.fst = req ∧ ∀ p ∈ r.pairs, p ∈ c.pairs := by
   obtain ⟨vs, e1, e2, e3, e4⟩ := pick_moys c hc req hreq
-  refine ⟨⟨c.ap, req.zip vs⟩, ?_, rfl, List.map_fst_zip (by omega), e4⟩
+  refine ⟨⟨c.ap, req.zip vs, true⟩, ?_, rfl, rfl, List.map_fst_zip (by omega), e4⟩
   unfold Cont.filterByMoys
   simp only [e1, e2]
-  show Keyed.mk? c.ap (req.zip vs) = _
+  show Keyed.mk? c.ap (req.zip vs) true = _
   unfold Keyed.mk?
   cases req with
   | nil => exact absurd rfl hne
@@ -192,7 +176,7 @@ theorem C02_cont_eq_slow {α : Type} (c : Cont α) (hc : c.WF) (req : List Nat) 
     (hnd : req.Nodup) (hreq : ∀ m ∈ req, m ∈ c.ap.moys) :
     ∃ r r', Cont.filterByMoys (req.map Int.ofNat) c = .ok r ∧
       Disc.filterByMoys (req.map Int.ofNat) c.toDisc = .ok r' ∧ r.ap = r'.ap ∧ r.pairs.Perm r'.pairs := by
-  obtain ⟨r, h1, h2, h3, h4⟩ := C02_cont_moys c hc req hne hreq
+  obtain ⟨r, h1, h2, _, h3, h4⟩ := C02_cont_moys c hc req hne hreq
   have hwf := hc.1
   have hnd_src : c.pairs.Nodup := by
     apply nodup_of_map_fst
@@ -225,7 +209,7 @@ theorem C02_cont_eq_slow {α : Type} (c : Cont α) (hc : c.WF) (req : List Nat) 
       intro h0
       have := (hmem p).mp (by rw [hr]; simp)
       rw [h0] at this; simp at this
-  refine ⟨r, ⟨c.ap, slow (req.map Int.ofNat) c.pairs⟩, h1, ?_, h2, ?_⟩
+  refine ⟨r, ⟨c.ap, slow (req.map Int.ofNat) c.pairs, true⟩, h1, ?_, h2, ?_⟩
   · unfold Disc.filterByMoys Keyed.mk? Cont.toDisc
     simp only []
     rw [if_neg (by simpa [List.isEmpty_iff] using hne')]
@@ -307,7 +291,7 @@ theorem C02_hoys_cont_foreign {α : Type} (hoyOf : Nat → Rat) (hs : List (Rat 
 theorem C02_window_filter {α : Type} (c : Cont α) (hc : c.WF) (f : AP) (hchk : checkAP c.ap f = true)
     (hwin : ¬ ((apSubset c.ap f).st_hour = 0 ∧ (apSubset c.ap f).end_hour = 23))
     (hwf : (apSubset c.ap f).WF) (hin : ∀ m ∈ (apSubset c.ap f).moys, m ∈ c.ap.moys) :
-    ∃ r, Cont.filterByAP f c = .ok (.disc r) ∧ r.ap = apSubset c.ap f ∧
+    ∃ r, Cont.filterByAP f c = .ok (.disc r) ∧ r.ap = apSubset c.ap f ∧ r.validated = true ∧
       r.pairs.map Prod.fst = (apSubset c.ap f).moys ∧ (∀ p ∈ r.pairs, p ∈ c.pairs) ∧
       ∀ p ∈ r.pairs, (apSubset c.ap f).Pred p.1 := by
   have hne : (apSubset c.ap f).moys ≠ [] := by
@@ -315,8 +299,8 @@ theorem C02_window_filter {α : Type} (c : Cont α) (hc : c.WF) (f : AP) (hchk :
     have := stMoy_mem _ hwf
     rw [h0] at this
     simp at this
-  obtain ⟨r, h1, h2, h3, h4⟩ := C02_cont_moys c hc _ hne hin
-  refine ⟨{ r with ap := apSubset c.ap f }, ?_, rfl, h3, h4, ?_⟩
+  obtain ⟨r, h1, h2, hv, h3, h4⟩ := C02_cont_moys c hc _ hne hin
+  refine ⟨{ r with ap := apSubset c.ap f }, ?_, rfl, hv, h3, h4, ?_⟩
   · unfold Cont.filterByAP
     rw [if_neg (by simp [hchk])]
     simp only []
@@ -327,48 +311,56 @@ theorem C02_window_filter {α : Type} (c : Cont α) (hc : c.WF) (f : AP) (hchk :
     rw [h3] at this
     exact (AP.C04_mem_moys _ hwf _).mp this
 
-theorem apSubset_keeps (src f : AP) : (apSubset src f).leap = f.leap ∧ (apSubset src f).timestep = f.timestep := by
-  unfold apSubset; split <;> exact ⟨rfl, rfl⟩
-
-/-- **Whole-day period filter – the slice bounds are the cyclic positions (partial).**  When the
-    clipped filter period covers whole days, the result is the continuous collection built from the
-    slice `values[st:end]` (or `values[st:] + values[:end]`) under the clipped period as header, where
-    `st` is the offset of the first filter step from the first step of the collection counted in
-    steps *through the year end* and `end` the offset of the filter's last hour plus one hour – for
-    every source period (annual, partial, wrapping), every timestep, leap or not.  By `moys_getElem`
-    step `k` of a collection is minute `(start + k·step) mod year`, so these offsets are the positions
-    of those minutes.
-    Missing for the full statement (in the comment below): the list-level step from the bounds to
-    "element `k` of the slice is the value at step `k` of the filter" and the length check of the
-    constructor; both are covered by the correspondence and oracle runs and by evaluated instances.
-
-    Full statement (not proved):
-      c.WF → checkAP c.ap f → f' := apSubset c.ap f whole-day, well formed, (∀ m ∈ f'.moys, m ∈ c.ap.moys) →
-      ∃ vs, Cont.filterByAP f c = .ok (.cont ⟨f', vs⟩) ∧ vs.length = f'.moys.length ∧
-        ∀ p ∈ f'.moys.zip vs, p ∈ c.pairs -/
-theorem C02_cont_period_bounds_partial {α : Type} (c : Cont α) (hc : c.WF) (f : AP)
-    (hchk : checkAP c.ap f = true)
+/-- **Whole-day period filter of a continuous collection – the slice is exactly the filter's run of
+    pairs.**  Let `f'` be the filter period clipped to the collection (`_get_analysis_period_subset`).
+    When `f'` covers whole days (hours 0 → 23), is well formed and its steps are date-times of the
+    collection, then for every source period (annual, partial, wrapping the year end), every one of
+    the 12 timesteps and both leap flags, and for both slice shapes (`values[st:end]`, and
+    `values[st:] + values[:end]` when the filter runs past the last value of a collection that covers
+    the whole year):
+    * the filter succeeds – in particular the constructor's check `len(values) == len(period)` holds –
+      and returns a *continuous* collection `r` whose header period is the clipped filter `f'`;
+    * `r` is well formed, so its date-times are the steps of `f'` in chronological order
+      (`C04_moys_chrono`) and its pairs are `zip (steps of f') values`;
+    * pair number `k` of the result – (step `k` of `f'`, value `k` of the slice) – is a pair of the
+      source: the value the source holds at that minute (unique by `C04_moys_nodup`);
+    * hence the date-times of the result are exactly the steps of `f'`, none lost or added. -/
+theorem C02_cont_period {α : Type} (c : Cont α) (hc : c.WF) (f : AP) (hchk : checkAP c.ap f = true)
     (hday : (apSubset c.ap f).st_hour = 0 ∧ (apSubset c.ap f).end_hour = 23)
-    (hwf : (apSubset c.ap f).WF) :
-    Cont.filterByAP f c = (Cont.mk? (apSubset c.ap f) (sliceVals c.vals
-      ((((apSubset c.ap f).stMoy + minutesInYear f.leap - c.ap.stMoy) % minutesInYear f.leap /
-          (apSubset c.ap f).step : Nat) : Int)
-      ((((apSubset c.ap f).endMoy + minutesInYear f.leap - c.ap.stMoy) % minutesInYear f.leap /
-          (apSubset c.ap f).step : Nat) + f.timestep : Int))).map Res.cont := by
-  obtain ⟨kl, kt⟩ := apSubset_keeps c.ap f
-  have hleap : (apSubset c.ap f).leap = c.ap.leap := by
-    rw [kl]; unfold checkAP at hchk; simp at hchk; exact hchk.2.symm
-  obtain ⟨_, _, m1, m2, _, _, m5, m6, _⟩ := AP.moment_facts _ hwf
-  unfold Cont.filterByAP
-  rw [if_neg (by simp [hchk])]
-  simp only []
-  rw [if_pos hday]
-  unfold sliceStart sliceEnd
-  rw [slice_idx c.ap _ hc.1 hwf hleap _ m1 (by omega), slice_idx c.ap _ hc.1 hwf hleap _ m2 (by omega), kl, kt]
+    (hwf : (apSubset c.ap f).WF) (hin : ∀ m ∈ (apSubset c.ap f).moys, m ∈ c.ap.moys) :
+    ∃ r : Cont α, Cont.filterByAP f c = .ok (.cont r) ∧ r.ap = apSubset c.ap f ∧ r.WF ∧
+      (∀ (k m : Nat) (v : α), r.ap.moys[k]? = some m → r.vals[k]? = some v → (m, v) ∈ c.pairs) ∧
+      (∀ p ∈ r.pairs, p ∈ c.pairs) ∧ r.pairs.map Prod.fst = (apSubset c.ap f).moys := by
+  obtain ⟨vs, h1, h2, h3⟩ := cont_period c hc f hchk hday hwf hin
+  refine ⟨⟨apSubset c.ap f, vs⟩, h1, rfl, ⟨hwf, hday.1, hday.2, by rw [h2, AP.len_eq_length _ hwf]⟩, h3, ?_, ?_⟩
+  · intro p hp
+    unfold Cont.pairs at hp
+    obtain ⟨k, hk⟩ := List.getElem?_of_mem hp
+    rw [List.getElem?_zip_eq_some] at hk
+    exact h3 k p.1 p.2 hk.1 hk.2
+  · unfold Cont.pairs
+    exact List.map_fst_zip (by rw [h2]; exact Nat.le_refl _)
 
--- Evaluated instances of the full statement (tests, `#guard` in Model/Filter.lean): wrapping source
--- 12/1 -> 1/31 with the inner wrapping filter 12/15 -> 1/15 (768 values, ids 336 .. 1103), a filter
--- after the year end, a clipped filter, an hour-window filter, a timestep mismatch.
+-- Evaluated instances (tests, `#guard` in Model/Filter.lean): wrapping source 12/1 -> 1/31 with the
+-- inner wrapping filter 12/15 -> 1/15 (768 values, ids 336 .. 1103), a filter after the year end, a
+-- clipped filter, an hour-window filter, a timestep mismatch.
+
+/-- Non-vacuity of `C02_cont_period`: a collection over 30 Dec → 2 Jan at 4 steps per hour of a leap
+    year, filtered by 31 Dec → 1 Jan, satisfies every hypothesis. -/
+example :
+    let c : Cont Nat := ⟨⟨12, 30, 0, 1, 2, 23, 4, true⟩, List.range 384⟩
+    let f : AP := ⟨12, 31, 0, 1, 1, 23, 4, true⟩
+    c.WF ∧ checkAP c.ap f = true ∧ (apSubset c.ap f) = f ∧ f.WF ∧ (∀ m ∈ f.moys, m ∈ c.ap.moys) := by
+  decide +kernel
+
+/-- The clipping keeps timestep and leap flag of the filter, and an annual collection never clips. -/
+theorem C02_subset_keeps (src f : AP) :
+    (apSubset src f).leap = f.leap ∧ (apSubset src f).timestep = f.timestep ∧
+    (src.isAnnual = true → apSubset src f = f) := by
+  refine ⟨?_, ?_, ?_⟩
+  · unfold apSubset; split <;> rfl
+  · unfold apSubset; split <;> rfl
+  · intro h; unfold apSubset; rw [if_pos h]
 
 /-! ### Value and key filters -/
 
@@ -441,5 +433,85 @@ theorem C02_keys_period {α : Type} (f : AP) (c r : Keyed Nat α) (h : dailyFilt
     | ok r0 =>
       rw [h1] at h; injection h with h; subst h
       exact ⟨by simpa using hl, rfl, (C02_keys _ _ _ h1).2.1⟩
+
+/-- **Monthly collections**: the period filter requests `months_int` of the period (C04: the months in
+    which the period has a step), keeps source order, puts the filter period on the header; no
+    check of timestep or leap flag is made. -/
+theorem C02_keys_period_monthly {α : Type} (f : AP) (c r : Keyed Nat α) (h : monthlyFilterByAP f c = .ok r) :
+    r.ap = f ∧ r.pairs = c.pairs.filter (fun p => decide (p.1 ∈ f.monthsInt)) ∧ r.pairs.Sublist c.pairs := by
+  unfold monthlyFilterByAP at h
+  cases h1 : Keyed.filterByKeys f.monthsInt c with
+  | error e => rw [h1] at h; cases h
+  | ok r0 =>
+    rw [h1] at h; injection h with h; subst h
+    exact ⟨rfl, (C02_keys _ _ _ h1).2.1, (C02_keys _ _ _ h1).2.2⟩
+
+/-- **Monthly-per-hour collections**: the period filter requests `months_per_hour` of the period –
+    by `C04_months_per_hour_sound` the (month, hour, minute) keys whose month is a month of the period
+    and whose time of day is a grid step inside its hour window – keeps source order and puts the
+    filter period on the header. -/
+theorem C02_keys_period_mph {α : Type} (f : AP) (hf : f.WF) (c r : Keyed (Nat × Nat × Nat) α)
+    (h : mphFilterByAP f c = .ok r) :
+    r.ap = f ∧ (∀ p, p ∈ r.pairs ↔ p ∈ c.pairs ∧ p.1 ∈ f.monthsPerHour) ∧
+    r.pairs.Sublist c.pairs ∧
+    ∀ p ∈ r.pairs, p.1.1 ∈ f.monthsInt ∧ ∃ x, x < 1440 ∧ x % f.step = 0 ∧ f.inWindow x ∧
+      p.1.2.1 = x / 60 ∧ p.1.2.2 = x % 60 := by
+  unfold mphFilterByAP at h
+  cases h1 : Keyed.filterByKeys f.monthsPerHour c with
+  | error e => rw [h1] at h; cases h
+  | ok r0 =>
+    rw [h1] at h; injection h with h; subst h
+    have hmem : ∀ p, p ∈ r0.pairs ↔ p ∈ c.pairs ∧ p.1 ∈ f.monthsPerHour := by
+      intro p
+      have h2 := h1
+      unfold Keyed.filterByKeys Keyed.mk? at h2
+      split at h2
+      · cases h2
+      · injection h2 with h2; subst h2
+        exact mem_keyFilter _ _ p
+    refine ⟨rfl, hmem, (C02_keys _ _ _ h1).2.2, ?_⟩
+    intro p hp
+    exact (AP.C04_months_per_hour_sound f hf p.1).mp ((hmem p).mp hp).2
+
+/-! ### The `validated_a_period` flag -/
+
+/-- **Propagation of `validated_a_period`.**  The filters of the hourly discontinuous class and the
+    value filters of the base class hand the flag of the source on; everything filtered out of a
+    continuous collection is marked validated (see also `C02_cont_moys`, `C02_window_filter`,
+    `C02_disc_moys`, `C02_disc_period`); the key filters of the daily / monthly / monthly-per-hour
+    classes build a fresh collection, whose flag is False whatever the source said. -/
+theorem C02_validated {κ α : Type} [DecidableEq κ] (c r : Keyed κ α) :
+    (∀ pat, Keyed.filterByPattern pat c = .ok r → r.validated = c.validated) ∧
+    (∀ p, Keyed.filterByPred p c = .ok r → r.validated = c.validated) ∧
+    (∀ req, Keyed.filterByKeys req c = .ok r → r.validated = false) := by
+  refine ⟨?_, ?_, ?_⟩
+  · intro pat h
+    unfold Keyed.filterByPattern at h
+    cases h1 : patternFilter pat c.pairs with
+    | error e => rw [h1] at h; cases h
+    | ok ps =>
+      rw [h1] at h
+      simp only [bind, Except.bind, Keyed.mk?] at h
+      split at h
+      · cases h
+      · injection h with h; subst h; rfl
+  · intro p h
+    unfold Keyed.filterByPred Keyed.mk? at h
+    split at h
+    · cases h
+    · injection h with h; subst h; rfl
+  · intro req h
+    unfold Keyed.filterByKeys Keyed.mk? at h
+    split at h
+    · cases h
+    · injection h with h; subst h; rfl
+
+/-- The value filters of a continuous collection mark their result validated. -/
+theorem C02_validated_cont {α : Type} (c : Cont α) (r : Disc α) :
+    (∀ pat, Cont.filterByPattern pat c = .ok r → r.validated = true) ∧
+    (∀ p, Cont.filterByPred p c = .ok r → r.validated = true) := by
+  constructor
+  · intro pat h; exact (C02_validated c.toDisc r).1 pat h
+  · intro p h; exact (C02_validated c.toDisc r).2.1 p h
 
 end Filter
